@@ -55,6 +55,8 @@ type RequireModule struct {
 	runtime     *js.Runtime
 	modules     map[string]*js.Object
 	nodeModules map[string]*js.Object
+	// natives caches native and core modules by name; it is separate from modules, whose keys are file paths
+	natives map[string]*js.Object
 }
 
 func NewRegistry(opts ...Option) *Registry {
@@ -111,6 +113,7 @@ func (r *Registry) Enable(runtime *js.Runtime) *RequireModule {
 		runtime:     runtime,
 		modules:     make(map[string]*js.Object),
 		nodeModules: make(map[string]*js.Object),
+		natives:     make(map[string]*js.Object),
 	}
 
 	runtime.Set("require", rrt.require)
